@@ -1,5 +1,6 @@
 import VaxisModel.Driver.Common
 import VaxisModel.Model.Sgr
+import VaxisModel.Model.SgrBytes
 
 /-! Driver for C18 (stateless; one output line per input line).
 
@@ -15,8 +16,11 @@ verdict = the property oracle on the implementation's answer:
 * dec: never `panic`; and when every SGR sequence of the input is in the producers' range, each returned
   cell's style shows what `Spec.sgr` says;
 * rt: the cells come back unchanged.
-String-level parts (splitting on `;` / `:`, `strconv.Atoi`, the ansi parser's decimal accumulation) live
-here: they are executable model code validated by correspondence only. -/
+  `encb <cells|ss> <caps> <cell>*\thex of the exact string the real producer wrote` — model = `VaxisModel.Model.SgrBytes.encodeCellsB / ssEncodeB`
+  `decb <cells|ss> <style> <hex string> <cluster lengths per rune offset>\tcells` — model = `VaxisModel.Model.SgrBytes.parseStyledB /
+   newStyledStringB` on the runes of the string (C02 automaton / own Cut-Split-Atoi), cluster oracle = the table.
+The string-level code used by `dec` (splitting on `;` / `:`, `strconv.Atoi`, decimal accumulation) is a second,
+independent transcription; the byte-level theorems (`Props/C18Bytes.lean`) are about the `SgrBytes` definitions. -/
 namespace VaxisModel.Driver.C18
 open VaxisModel.Driver VaxisModel.Model.Sgr VaxisModel.Spec
 
@@ -197,6 +201,44 @@ def stepRt (legacy : Bool) (which : String) (cells : List (Cell G)) (impl : Stri
     else s!"FAIL round trip changed the cells: {impl}"
   s!"{mc}\t{impl}\t{verdict}"
 
+
+/-! ### byte level -/
+
+def runesOfHex? (h : String) : Option (List Nat) :=
+  if h = "-" then some [] else
+  match hexBytes? h with
+  | none => none
+  | some bs =>
+    match String.fromUTF8? (ByteArray.mk (bs.map (·.toUInt8)).toArray) with
+    | some str => some (str.toList.map Char.toNat)
+    | none => none
+
+def hexOfRunes (rs : List Nat) : String :=
+  if rs.isEmpty then "-" else
+  hexOfBytes ((String.ofList (rs.map Char.ofNat)).toUTF8.toList.map (·.toNat))
+
+def cellB? (c : Cell G) : Option (Cell VaxisModel.Model.SgrBytes.Str) := (runesOfHex? c.g).map (fun g => ⟨g, c.st⟩)
+def cellOfB (c : Cell VaxisModel.Model.SgrBytes.Str) : Cell G := ⟨hexOfRunes c.g, c.st⟩
+
+def stepEncB (which : String) (caps : Nat) (cells : List (Cell G)) (impl : String) : String :=
+  match cells.mapM cellB? with
+  | none => "bad-op\tbad-op\tbad-op"
+  | some cs =>
+    let m := if which = "cells" then hexOfRunes (VaxisModel.Model.SgrBytes.encodeCellsB (bit caps 2) cs)
+             else if which = "ss" then hexOfRunes (VaxisModel.Model.SgrBytes.ssEncodeB (bit caps 2) cs) else "bad-op"
+    s!"{m}\t{impl}\t{if impl = "panic" then "FAIL panic" else "ok"}"
+
+def stepDecB (which : String) (dflt : Style) (h : String) (table : String) (impl : String) : String :=
+  match runesOfHex? h, (if table = "-" then some [] else commaNats? table) with
+  | some rs, some tb =>
+    let n := rs.length
+    let cl : VaxisModel.Model.SgrBytes.Str → Nat := fun s => tb.getD (n - s.length) 1
+    let m := if which = "cells" then exStr (fun cs => cellsStr (cs.map cellOfB)) (VaxisModel.Model.SgrBytes.parseStyledB cl rs)
+             else if which = "ss" then exStr (fun cs => cellsStr (cs.map cellOfB)) (VaxisModel.Model.SgrBytes.newStyledStringB cl dflt rs)
+             else "bad-op"
+    s!"{m}\t{impl}\t{if impl = "panic" then "FAIL panic" else "ok"}"
+  | _, _ => "bad-op\tbad-op\tbad-op"
+
 def step (line : String) : String :=
   let (op, impl) := splitTab line
   match fields op with
@@ -208,6 +250,14 @@ def step (line : String) : String :=
     match parseStyle? dflt, toks.mapM parseTok? with
     | some dflt, some toks => stepDec which dflt toks impl
     | _, _ => "bad-op\tbad-op\tbad-op"
+  | "encb" :: which :: caps :: cells =>
+    match caps.toNat?, cells.mapM parseCell? with
+    | some caps, some cells => stepEncB which caps cells impl
+    | _, _ => "bad-op\tbad-op\tbad-op"
+  | ["decb", which, dflt, h, table] =>
+    match parseStyle? dflt with
+    | some dflt => stepDecB which dflt h table impl
+    | none => "bad-op\tbad-op\tbad-op"
   | "rt" :: which :: cells =>
     match cells.mapM parseCell? with
     | some cells => stepRt false which cells impl
